@@ -14,7 +14,7 @@ CLAIM = ("dot, length, distance, cross, normalize, faceforward, reflect, refract
          "argument in [-1, 1] (or NaN when the dot product is NaN) for every input, so that unit vectors whose dot product rounds above 1 cannot produce NaN.")
 BOUNDS = ("real mode: all real inputs satisfying the stated non-degeneracy precondition of each obligation (v != 0, unit N, eta > 0, linearly independent columns ...), L = 1..4, float and double "
           "instantiations; fp mode: all 2^32 / 2^64 bit patterns per component (refract: inputs for which the documented k is not NaN); lxNorm: Depth in {1, 2, 3, 4} only")
-OUTSIDE = ("magnitude of floating-point rounding error in any identity (orthogonality of cross under cancellation is decided in the rounding-erased sense only); overflow/underflow of squared norms; "
+OUTSIDE = ("magnitude of floating-point rounding error in any identity (orthogonality of cross under cancellation is decided in the rounding-erased sense only); overflow/underflow of squared norms themselves; overflow of intermediates is decided (no-overflow obligations: every add/sub/mul/div node below the overflow threshold for squared norms in [2^-100, 2^100] resp. [2^-900, 2^900]) only for proj/perp (vec2), normalize, cross, length2, dot (L <= 2), distance2 (L <= 2), faceforward (L <= 2) and their scalar overloads - sums of three or more products need Cauchy-Schwarz over large constants, which nlsat does not finish, and reflect/refract exceed the threshold for non-unit N; "
            "lxNorm for Depth > 4 and the numerical accuracy of pow/acos; the value of angle() beyond cos(angle) = dot and 0 <= angle <= pi; refract on total internal reflection in real mode (sqrt of a "
            "negative has no real model: that half is decided bit-precisely); the sign of zero components of -N in faceforward for vec3/vec4 (0 - v, C01); aligned/SIMD qualifiers (C03). "
            "Optional (attempted, not part of the claim): the ieee-lemma.*.sqrt-facts lemmas, which only shape counterexamples, and the steps of a lemma chain that do not go through (the goals they serve are then "
@@ -808,8 +808,55 @@ def job_fp_scalar(t):
         fp_check(S, 'oangle3_' + t, angle_fp_spec(w, lambda i: fdot([fpof(x) for x in i[0]], [fpof(x) for x in i[1]])), timeout=tm, solver=sv, name='c12.oangle3_%s.fp' % t, bounds='all bit patterns')
     return run
 
+# ---- no intermediate overflow inside the property's domain ("squared norms neither overflow nor underflow")
+OVF_FNS = ['proj_v2', 'normalize_v1', 'normalize_v2', 'normalize_v3', 'normalize_v4', 'cross', 'cross2', 'length2_v1', 'length2_v2', 'length2_v3', 'length2_v4', 'dot_v1', 'dot_v2',
+           'distance2_v1', 'distance2_v2', 'faceforward_v1', 'faceforward_v2', 's_dot', 's_length2', 's_distance2', 's_faceforward']
+def job_overflow(t):
+    """every intermediate value of the rounding-erased computation (each add / sub / mul / div node of the executed code) stays below the overflow threshold of the element
+    type for ALL inputs whose squared norms lie in [2^-100, 2^100] (float) / [2^-900, 2^900] (double): a re-association such as N * dot(x, N) / dot(N, N) for
+    dot(x, N) / dot(N, N) * N computes the same real value but overflows inside the documented domain.  A counterexample is replayed natively (non-finite result on finite inputs)."""
+    w = 32 if t == 'f32' else 64; e_in = 100 if w == 32 else 900; e_max = 127 if w == 32 else 1023
+    LO = z3.RealVal(2) ** (-e_in); HI = z3.RealVal(2) ** e_in; BIG = z3.RealVal(2) ** e_max
+    def run(S):
+        for base in OVF_FNS:
+            fn = '%s_%s' % (base, t)
+            if fn not in U.fns: continue
+            try: res = sym_call(U, fn, mode='real')
+            except Unsupported as e:
+                S.rec(name='c12.%s.no-overflow' % fn, kind='encode', result='unsupported', status='not-encoded', note=str(e)[:200], mandatory=True, functions=[fn]); S.inconclusive.append('c12.%s.no-overflow [not encoded]' % fn); continue
+            outs = [x.r for o in res.outs for x in o if isinstance(x, RV)]
+            nodes = {}; st = list(outs)
+            while st:
+                x = st.pop(); k = x.get_id()
+                if k in nodes: continue
+                nodes[k] = x; st.extend(x.children())
+            arith = [x for x in nodes.values() if z3.is_app(x) and z3.is_real(x) and x.num_args() > 0 and x.decl().kind() in (z3.Z3_OP_ADD, z3.Z3_OP_SUB, z3.Z3_OP_MUL, z3.Z3_OP_DIV, z3.Z3_OP_UMINUS)]
+            hy = list(res.axioms); fnd = U.fns[fn]
+            for (c, n), vec in zip(fnd.ins, res.ins):
+                if all(z3.is_real(x) for x in vec):
+                    n2 = sum_(x * x for x in vec); hy += [n2 >= LO, n2 <= HI]
+            def replay(m, fn=fn, res=res, fnd=fnd):
+                vals = [[float_to_bits(float(z3val_to_fraction(m.eval(x, model_completion=True))), w) for x in vec] for vec in res.ins]
+                nat = U.call_native(fn, vals); info = {'unit': U.name, 'fn': fn, 'inputs': [[hex(v) for v in r] for r in vals], 'native_out': [[hex(v) for v in r] for r in nat], 'property': 'C12', 'obligation': 'c12.%s.no-overflow' % fn}
+                bad = False
+                for (c, n), row in zip(fnd.outs, nat):
+                    if ct_kind(c) != 'f': continue
+                    for v in row:
+                        f = bits_to_float(v, ct_bits(c))
+                        if f != f or f in (float('inf'), float('-inf')): bad = True
+                return ('reproduced' if bad else 'not-reproduced'), info
+            for k_, x in enumerate(sorted(arith, key=lambda y: str(y))):
+                S.prove('c12.%s.no-overflow[%d]' % (fn, k_), z3.If(x >= 0, x, -x) <= BIG, hy, timeout=S.cap(20, 60), solver='z3', kind='magnitude', functions=['w_' + fn], replay=replay,
+                        bounds='rounding-erased; every input vector with squared norm in [2^-%d, 2^%d]; intermediate: %s' % (e_in, e_in, str(x)[:120].replace('\n', ' ')))
+    return run
+def sum_(xs):
+    r = None
+    for x in xs: r = x if r is None else r + x
+    return r
+
 def jobs(tier):
     J = []
+    for t in FT: J.append(('overflow_' + t, job_overflow(t)))
     for t in FT:
         for L in (1, 2, 3, 4):
             J.append(('core_real_v%d_%s' % (L, t), job_core_real(t, L)))
